@@ -23,6 +23,18 @@ theorem tie_h_node_signal : Extracted.Sched.h_node_signal = Canon.Sched.h_node_s
 theorem tie_h_node_cancel : Extracted.Sched.h_node_cancel = Canon.Sched.h_node_cancel := by decide +kernel
 theorem tie_h_node_setErr : Extracted.Sched.h_node_setErr = Canon.Sched.h_node_setErr := by decide +kernel
 theorem tie_h_node_setStatus : Extracted.Sched.h_node_setStatus = Canon.Sched.h_node_setStatus := by decide +kernel
+theorem tie_h_node_finish : Extracted.Sched.h_node_finish = Canon.Sched.h_node_finish := by decide +kernel
+theorem tie_h_node_State : Extracted.Sched.h_node_State = Canon.Sched.h_node_State := by decide +kernel
+theorem tie_h_node_SetError : Extracted.Sched.h_node_SetError = Canon.Sched.h_node_SetError := by decide +kernel
+theorem tie_h_node_getRetryCount : Extracted.Sched.h_node_getRetryCount = Canon.Sched.h_node_getRetryCount := by decide +kernel
+theorem tie_h_node_setRetriedAt : Extracted.Sched.h_node_setRetriedAt = Canon.Sched.h_node_setRetriedAt := by decide +kernel
+theorem tie_h_node_getDoneCount : Extracted.Sched.h_node_getDoneCount = Canon.Sched.h_node_getDoneCount := by decide +kernel
+theorem tie_h_node_clearState : Extracted.Sched.h_node_clearState = Canon.Sched.h_node_clearState := by decide +kernel
+theorem tie_h_node_incRetryCount : Extracted.Sched.h_node_incRetryCount = Canon.Sched.h_node_incRetryCount := by decide +kernel
+theorem tie_h_node_incDoneCount : Extracted.Sched.h_node_incDoneCount = Canon.Sched.h_node_incDoneCount := by decide +kernel
+theorem tie_h_node_setCmdRunning : Extracted.Sched.h_node_setCmdRunning = Canon.Sched.h_node_setCmdRunning := by decide +kernel
+theorem tie_h_node_isCmdRunning : Extracted.Sched.h_node_isCmdRunning = Canon.Sched.h_node_isCmdRunning := by decide +kernel
+theorem tie_h_node_init : Extracted.Sched.h_node_init = Canon.Sched.h_node_init := by decide +kernel
 theorem tie_h_graph_IsRunning : Extracted.Sched.h_graph_IsRunning = Canon.Sched.h_graph_IsRunning := by decide +kernel
 theorem tie_dryGuards : Extracted.Sched.dryGuards = Canon.Sched.dryGuards := by decide +kernel
 theorem tie_errSwitch : Extracted.Sched.errSwitch = Canon.Sched.errSwitch := by decide +kernel
@@ -57,6 +69,18 @@ theorem tie_statusCascade : Extracted.Sched.statusCascade = Canon.Sched.statusCa
 #print axioms tie_h_node_cancel
 #print axioms tie_h_node_setErr
 #print axioms tie_h_node_setStatus
+#print axioms tie_h_node_finish
+#print axioms tie_h_node_State
+#print axioms tie_h_node_SetError
+#print axioms tie_h_node_getRetryCount
+#print axioms tie_h_node_setRetriedAt
+#print axioms tie_h_node_getDoneCount
+#print axioms tie_h_node_clearState
+#print axioms tie_h_node_incRetryCount
+#print axioms tie_h_node_incDoneCount
+#print axioms tie_h_node_setCmdRunning
+#print axioms tie_h_node_isCmdRunning
+#print axioms tie_h_node_init
 #print axioms tie_h_graph_IsRunning
 #print axioms tie_dryGuards
 #print axioms tie_errSwitch
